@@ -36,4 +36,18 @@ def dist2 (p : V3 K) (b : Aabb3 K) : K :=
   dx * dx + dy * dy + dz * dz
 
 end Qbvh
+
+/-! ## the pruning bound of the composite-shape distance visitors
+(`CompositeShapeAgainstAnyDistanceVisitor::visit`, `…ClosestPointsVisitor::visit`, `distance_composite_shape_shape.rs`) -/
+
+/-- `SimdAabb { mins: bv.mins + msum_shift + (-msum_margin), maxs: bv.maxs + msum_shift + msum_margin }` (one lane) -/
+def msumBox {K : Type} [Num K] (bv : Aabb3 K) (shift margin : V3 K) : Aabb3 K :=
+  ⟨(bv.mins.add shift).add margin.neg, (bv.maxs.add shift).add margin⟩
+
+/-- the vector whose norm is `SimdAabb::distance_to_origin`: `mins.sup(-maxs).sup(0)` -/
+def originShift {K : Type} [Num K] (b : Aabb3 K) : V3 K := (b.mins.sup b.maxs.neg).sup V3.zero
+
+/-- `SimdAabb::distance_to_origin` (one lane) -/
+def distToOrigin {K : Type} [Num K] (b : Aabb3 K) : K := (originShift b).norm
+
 end Model
